@@ -224,6 +224,8 @@ func run(r *mon.Run) {
 	if r.Thorough {
 		n = 60000
 	}
+	var prevRead *bundle.Bundle
+	var prevWant map[string][]flatEx
 	for i := 0; i < n; i++ {
 		if !r.Mine(i) {
 			continue
@@ -254,6 +256,13 @@ func run(r *mon.Run) {
 			continue
 		}
 		want := expected(b, sets)
+		// the bundle read in the previous iteration was kept: reading this one must not have changed it
+		if prevRead != nil {
+			if d := diffGroups(prevWant, groupImpl(prevRead)); d != "" {
+				fail("RETAINED-BUNDLE-CHANGED", "a bundle returned by an earlier Read changed after a later Read in the same process: "+d)
+			}
+		}
+		prevRead, prevWant = r1, want
 		problem := ""
 		switch {
 		case r1.Version != b.Version:
